@@ -32,6 +32,9 @@ var bsFaultPlans = []ftPlan{
 	// one PutMany of three blocks, then a Put: a fault inside the batch after its first block
 	{O: sOpts{Maxcid: 2048, Codec: "mh"}, Puts: []string{"b1", "b4", "b13", "b9"}, Many: 3},
 	{O: sOpts{Maxcid: 2048, Codec: "sorted", V1: true}, Puts: []string{"b4", "b12", "b1", "b13"}, Many: 3},
+	// two faults in one session: a long section fails far in, the next (short) one fails a few bytes in
+	{O: sOpts{Maxcid: 2048, Codec: "mh", V1: true}, Puts: []string{"b15", "b1", "b4"}, Second: 5},
+	{O: sOpts{Maxcid: 2048, Codec: "mh"}, Puts: []string{"b15", "b1", "b4"}, Second: 40},
 }
 
 func runFaultBsChild(args []string) int {
@@ -55,11 +58,23 @@ func runFaultBsChild(args []string) int {
 			return 0
 		}
 	}
+	var lastEnd, ackedEnd int64 // end of the last successful write; end of the last acknowledged section
+	faults := 0
 	verifhook.Set(&verifhook.Hooks{Write: func(target any, off int64, p []byte, n int, err error) {
-		if err != nil && !fired {
-			fired = true
-			syscall.Setrlimit(syscall.RLIMIT_FSIZE, &syscall.Rlimit{Cur: inf, Max: inf})
+		if err == nil {
+			lastEnd = off + int64(n)
+			return
 		}
+		faults++
+		if !fired {
+			fired = true
+			if pl.Second > 0 {
+				// arm the second fault: the next section starts where the failed one did
+				syscall.Setrlimit(syscall.RLIMIT_FSIZE, &syscall.Rlimit{Cur: uint64(ackedEnd + int64(pl.Second)), Max: inf})
+				return
+			}
+		}
+		syscall.Setrlimit(syscall.RLIMIT_FSIZE, &syscall.Rlimit{Cur: inf, Max: inf})
 	}})
 	bs, err := blockstore.OpenReadWrite(path, idsToCids([]string{"b1"}), pl.O.carOpts()...)
 	if err != nil {
@@ -80,6 +95,7 @@ func runFaultBsChild(args []string) int {
 	}
 	acked := map[string]bool{}
 	stop := false
+	ackedEnd = lastEnd
 	if pl.Many > 0 {
 		// What a failed PutMany keeps of its earlier elements is not fixed by the property; what
 		// it keeps must be consistent: the blocks it still reports as stored are a proper prefix of
@@ -141,7 +157,23 @@ func runFaultBsChild(args []string) int {
 		}
 		blk := alphaByID[id]
 		was := fired
+		nf := faults
 		err := bs.Put(bg, mkBlock(blk))
+		if err == nil {
+			ackedEnd = lastEnd
+		}
+		if was && faults > nf {
+			// the second fault of the session: same obligations as the first
+			if err == nil {
+				o.ErrRet = false
+				o.Msg += " the call that met the second fault returned nil;"
+			} else {
+				if has, herr := bs.Has(bg, blk.Cid); herr == nil && has {
+					o.Visible = true
+				}
+			}
+			continue
+		}
 		if !was && fired {
 			o.Call, o.ErrRet = "put", err != nil
 			if err == nil {
@@ -157,8 +189,15 @@ func runFaultBsChild(args []string) int {
 			switch cont {
 			case "retry":
 				if err != nil {
-					if bs.Put(bg, mkBlock(blk)) == nil {
+					nf2 := faults
+					rerr := bs.Put(bg, mkBlock(blk))
+					if rerr == nil {
 						acked[id] = true
+						ackedEnd = lastEnd
+						if faults > nf2 {
+							o.ErrRet = false
+							o.Msg += " the retry met the second fault and returned nil;"
+						}
 					}
 				}
 			case "finalize":
@@ -176,6 +215,7 @@ func runFaultBsChild(args []string) int {
 		o.Call, o.ErrRet = "finalize", ferr != nil
 	}
 	syscall.Setrlimit(syscall.RLIMIT_FSIZE, &syscall.Rlimit{Cur: inf, Max: inf})
+	o.Faults = faults
 	for id := range acked {
 		o.Acked = append(o.Acked, id)
 	}
